@@ -78,7 +78,8 @@ def scenarios(layout):
 OPTCOLS = ("verd", "sund", "et0")      # optional columns of the per-year layout, in the order of the harness' "opt" echo
 
 
-def make_case(rnd, idx, layout, scen, long_spans=False, variant=0):
+def make_case(rnd, idx, layout, scen, long_spans=False, variant=0, fixed=None):
+    fixed = fixed or {}
     sy = rnd.choice([1951, 1963, 1979, 1983, 1991, 1995, 1999, 2003, 2007, 2011, 2019, 2023, 2047])
     if scen.startswith("complete") and rnd.random() < 0.5:
         sy = rnd.choice([1952, 1980, 1996, 2000, 2004, 2024])
@@ -96,6 +97,10 @@ def make_case(rnd, idx, layout, scen, long_spans=False, variant=0):
     if scen == "leap-then-two-years":
         start = D(sy, rnd.randrange(1, 13), rnd.randrange(1, 28)); end = start + datetime.timedelta(days=span)
         ann = D(end.year, ann.month, min(ann.day, 28))
+    if scen.startswith("sweep:"):
+        # configuration sweep: short run over a year change, annual date before the end date (no extension of the run)
+        start = D(sy, rnd.choice([10, 11, 12]), rnd.randrange(1, 29)); end = start + datetime.timedelta(days=rnd.randrange(70, 150))
+        ann = D(end.year, 1, rnd.randrange(2, 29))
     if scen == "rollovers-past-131":
         # the 2012 file ends on 8 January (JTAG 8): a roll-over every 8 days, annual output on 5 January = reached in every "year";
         # g.AUS/SIC/AUFNA have 131 slots (run.go:717, repaired as F31): more than 200 roll-overs must not end the process
@@ -115,9 +120,10 @@ def make_case(rnd, idx, layout, scen, long_spans=False, variant=0):
     if scen == "complete-early":
         first = D(sy - 1, rnd.randrange(1, 13), rnd.randrange(1, 28))
     last = D(eff.year, 12, 31)
-    if rnd.random() < 0.3:
+    if rnd.random() < 0.3 and not scen.startswith("sweep:"):
         last = D(eff.year + 1, 12, 31)           # more years than slots
     none = rnd.choice(["-99.9", "-99", "999.9"])
+    none = fixed.get("none", none)
     c = {"idx": idx, "layout": layout, "scen": scen, "sy": sy, "start": start, "end": end, "ann": ann, "eff": eff,
          "none": none, "anjahr": sy, "skip_years": (), "preco": None, "etpot": rnd.choice([1, 2, 3, 3, 4])}
     if scen == "late-start":
@@ -205,8 +211,56 @@ def make_case(rnd, idx, layout, scen, long_spans=False, variant=0):
         c["anjahr"] = sy + delta
     elif scen == "preco":
         c["preco"] = ["%4.2f" % rnd.uniform(0.9, 1.3) for _ in range(12)]
+    if fixed.get("preco_mode"):
+        # on: switch and file; off-file: file present, switch off (factors must not be applied)
+        fac = ["%4.2f" % rnd.uniform(0.9, 1.3) for _ in range(12)]
+        c["preco_mode"] = fixed["preco_mode"]
+        c["preco"] = fac if fixed["preco_mode"] == "on" else None
+        c["preco_file"] = fac if fixed["preco_mode"] in ("on", "off-file") else None
+    for k in ("etpot", "numheader", "windhi", "wroot", "wfolder", "decoy"):
+        if k in fixed:
+            c[k] = fixed[k]
     c["series"] = ser
     return c
+
+
+def sweep_cases(rnd, idx0):
+    """configuration sweep: short runs with ONE configuration key (or one pair of interacting switches) away from the
+    set-up of the other runs, for every key the weather path of the day loop reads"""
+    out = []
+
+    def add(layout, name, **fixed):
+        c = make_case(rnd, idx0 + len(out), layout, "sweep:" + name, fixed=fixed)
+        out.append(c)
+        return c
+    for layout in (0, 1, 2):
+        for none in ("-99", "-99.9", "999.9"):
+            add(layout, "WeatherNoneValue=%s" % none, none=none)
+        for mode in ("on", "off-file"):            # switch on without preco.txt ends the process (log.Fatal): an error by design, not runnable in-process
+            add(layout, "CorrectionPrecipitation:%s" % mode, preco_mode=mode)
+        for et in ((1, 2, 3, 4, 5) if layout == 0 else (1, 5)):     # which weather columns Evatra consumes (optional columns: per-year layout)
+            add(layout, "ETpot=%d" % et, etpot=et)
+    for layout, nh, wh in ((0, 0, None), (0, 1, None), (0, 2, None), (0, 3, "2"), (1, 1, None), (1, 3, "2.0"), (2, 2, None)):
+        add(layout, "WeatherNumHeader=%d" % nh, numheader=nh, windhi=wh, etpot=rnd.choice([1, 2, 4]))
+    for layout in (0, 1, 2):
+        # the weather files outside the default place; the default place holds a decoy (the same series shifted by one day)
+        add(layout, "WeatherRootFolder=./wx2/", wroot="./wx2/", decoy=True)
+        add(layout, "WeatherRootFolder=<absolute>", wroot="<abs>/wx3", decoy=True)
+        add(layout, "WeatherFolder=<nested>", wfolder="nested/%s", decoy=True)
+        add(layout, "WeatherRootFolder=''", wroot="", wfolder="wx4/%s", decoy=True)
+    for layout in (0, 1, 2):
+        # two runs of one session on the same weather file(s): the second starts a year later (the file starts before its start year)
+        a = add(layout, "shared-weather-file:first")
+        b = make_case(rnd, idx0 + len(out), layout, "sweep:shared-weather-file:second", fixed={"none": a["none"]})
+        b["series"], b["order"], b["windhi"], b["optcols"], b["share"] = a["series"], a["order"], a["windhi"], a["optcols"], a["idx"]
+        y = a["eff"].year
+        b["sy"] = b["anjahr"] = y
+        b["start"] = D(y, rnd.randrange(1, 4), rnd.randrange(1, 29)); b["end"] = b["eff"] = b["start"] + datetime.timedelta(days=rnd.randrange(60, 200))
+        b["ann"] = D(y, b["start"].month, 1)
+        if b["ann"] >= b["end"]:
+            b["ann"] = b["start"]
+        out.append(b)
+    return out
 
 
 def gen_cases(ctx):
@@ -217,6 +271,7 @@ def gen_cases(ctx):
         for layout in (0, 1, 2):
             for scen in scenarios(layout):
                 cases.append(make_case(rnd, len(cases), layout, scen, ctx.thorough, variant=layout + rep + ctx.seed))
+    cases += sweep_cases(random.Random(ctx.seed * 104729 + 17), len(cases))
     return cases
 
 
@@ -228,22 +283,43 @@ def _run(ctx):
     root = wxlib.make_tree(ctx, "c04")
     cases = gen_cases(ctx)
     lines = []
+    wcfgs = {}
     for c in cases:
         p = "q%03d" % c["idx"]
         ser = c["series"]
-        wcfg = wxlib.write_weather(root, p, c["layout"], "F" + p, ser, skip_years=c["skip_years"], windhi=c.get("windhi"), order=c.get("order"), none=c["none"])
-        cfg = dict(wcfg, WeatherFolder=p, WeatherNoneValue=c["none"], StartYear=c["anjahr"], EndDate=de(c["end"]),
+        wroot, wfolder = c.get("wroot"), (c.get("wfolder") or "%s") % p
+        if c.get("share") is not None:
+            # second run of a session on the weather file(s) of the run before
+            wcfg, fcode = wcfgs[c["share"]]
+        else:
+            fcode = "F" + p
+            place = {None: "weather", "./wx2/": "wx2", "<abs>/wx3": "wx3", "": ""}[wroot]
+            wcfg = wxlib.write_weather(root, wfolder, c["layout"], fcode, ser, skip_years=c["skip_years"], windhi=c.get("windhi"), order=c.get("order"),
+                                       none=c["none"], numheader=c.get("numheader"), wroot=place)
+            if c.get("decoy"):
+                # the place the other runs use holds the same series shifted by one day
+                shifted = [(d, r2) for (d, r1), (d2, r2) in zip(ser, ser[1:] + ser[:1])]
+                wxlib.write_weather(root, p, c["layout"], fcode, shifted, windhi=c.get("windhi"), order=c.get("order"), none=c["none"],
+                                    numheader=c.get("numheader"))
+            wcfg = dict(wcfg, WeatherFolder=wfolder)
+            if wroot is not None:
+                wcfg["WeatherRootFolder"] = wroot.replace("<abs>", root)
+            wcfgs[c["idx"]] = (wcfg, fcode)
+        cfg = dict(wcfg, WeatherNoneValue=c["none"], StartYear=c["anjahr"], EndDate=de(c["end"]),
                    AnnualOutputDate="%02d%02d" % (c["ann"].day, c["ann"].month), OutputIntervall=0,
                    ETpot=c["etpot"])
         if c["preco"]:
             cfg["CorrectionPrecipitation"] = 1
-            with open(os.path.join(root, "weather", p, "preco.txt"), "w") as f:
-                f.write("Mo corr\n" + "".join("%02d %s\n" % (m + 1, v) for m, v in enumerate(c["preco"])))
+        fac = c.get("preco_file") or (c["preco"] if not c.get("preco_mode") else None)
+        if fac:
+            wdir = os.path.join(root, {None: "weather", "./wx2/": "wx2", "<abs>/wx3": "wx3", "": ""}[wroot], wfolder)
+            with open(os.path.join(wdir, "preco.txt"), "w") as f:
+                f.write("Mo corr\n" + "".join("%02d %s\n" % (m + 1, v) for m, v in enumerate(fac)))
         st = c["start"]
         rot = [("SM", None, st), ("SOY", st + datetime.timedelta(days=200), st + datetime.timedelta(days=330)),
                ("SM", st + datetime.timedelta(days=560), st + datetime.timedelta(days=700))]
         wxlib.write_project(root, p, cfg, rot)
-        lines.append(wxlib.batch_line(p, "F" + p, "R/" + p))
+        lines.append(("+" if c.get("share") is not None else "") + wxlib.batch_line(p, fcode, "R/" + p))
     rc, runs, err = wxlib.run_lines(ctx, root, lines, True, "c04")
     _cache["runs"] = (rc, cases, runs, err)
     return _cache["runs"]
@@ -421,8 +497,6 @@ def _expect_opt(cs, inp, z, name):
     v = float(inp[z][name])
     if v != none:
         return v
-    if name == "et0":
-        return None          # replaceMissingValues has no clause for the reference evapotranspiration: see observed_et0_sentinel below
     a, b = inp.get(z - ONE), inp.get(z + ONE)
     if a is None or b is None or not ((z - ONE).year == z.year == (z + ONE).year):
         return None
@@ -479,8 +553,7 @@ def oracle(ctx, search):
         fails.append(Fail(key="harness-crash", what="the simulator aborted (log.Fatal/panic) on a generated weather input",
                           stderr=err[-800:], completed_runs=len(runs)))
         return fails
-    checked = nopt = net0 = 0
-    et0_example = None
+    checked = nopt = 0
     for cs, run in zip(cases, runs):
         beginn, eff = cs["start"], cs["eff"]
         p, mode, inp = _problem(cs, beginn, eff)
@@ -527,9 +600,6 @@ def oracle(ctx, search):
                 if name not in cs["optcols"] or k >= len(optv):
                     continue
                 wv = _expect_opt(cs, inp, z, name)
-                if name == "et0" and float(inp[z]["et0"]) == float(cs["none"]) and float.fromhex(optv[k][j]) == float(cs["none"]):
-                    net0 += 1
-                    et0_example = et0_example or "%s: %s" % (z, desc)
                 if wv is not None:
                     nopt += 1
                     gv = float.fromhex(optv[k][j])
@@ -556,12 +626,14 @@ def oracle(ctx, search):
             fails.append(Fail(key="day-count:layout%d:%s" % (cs["layout"], cs["scen"]),
                               what="%d simulated days, expected %d" % (len(days), want_days), case=desc))
     ctx.extra["oracle_days_checked"] = checked
+    sw = [(cs, run) for cs, run in zip(cases, runs) if cs["scen"].startswith("sweep:")]
+    ctx.extra["configuration_sweep"] = {
+        "what": "short runs over a year change with one configuration key (or one pair of interacting switches) away from the set-up of the other "
+                "runs; same oracle (error, or every day driven by its own date's record, optional columns included) and same model correspondence",
+        "lines": len(sw), "lines_run_ok": sum(1 for cs, run in sw if run["success"]),
+        "keys": sorted(set(cs["scen"][6:] + " layout %d" % cs["layout"] for cs, run in sw)),
+        "dropped_as_invalid": ["CorrectionPrecipitation=1 without preco.txt (log.Fatal: error by design, ends the process)"]}
     ctx.extra["oracle_optional_column_values_checked"] = nopt
-    ctx.extra["observed_et0_sentinel"] = {
-        "what": "per-year layout, ET0 column present: a day carrying the sentinel in the ET0 column reaches Evatra with the sentinel as its value "
-                "(replaceMissingValues fills TMP, VERD, SUND, RADI, REG only; ETpot=5 would turn it into a negative potential evapotranspiration); "
-                "reported to the lead as a candidate finding, no alarm here",
-        "days_this_run": net0, "example": et0_example}
     # ---- character level, the property's domain: well-formed files are read back value for value
     tcases, tres, restarts = _run_tok(ctx)
     badwf, nwf = toklib.oracle_wellformed(tcases, tres)
